@@ -106,10 +106,12 @@ def fin_base(ix):
     return base
 
 
-def cell(ix, st, target, cache_flag, start, t, fs_paused=True, kind="matrix", bank_flags=0):
+def cell(ix, st, target, cache_flag, start, t, fs_paused=True, kind="matrix", bank_flags=0, acct_flags=0):
     base = fin_base(ix)
     group = dict(base["fields"])["group"]
     c = base
+    if acct_flags:
+        c = A.with_tweak(c, f"aflag:{dict(base['fields'])['marginfi_account']}:{acct_flags}:1")
     if fs_paused:
         c = A.with_tweak(c, f"fspause:1:{start}:1:1")
     if cache_flag is not None:
@@ -140,6 +142,13 @@ def matrix():
             for st in STATES:
                 for fl in (32, 96):
                     lines.append(cell(ix, st, target, None, 0, 0, fs_paused=False, kind="matrix", bank_flags=fl))
+    # ... nor on the ACCOUNT's flag word: an account in receivership (liquidation: 16, deleverage: 16 | 32) is acted on
+    # by its receiver through the ordinary withdraw / repay instructions, which stay subject to the bank's state
+    for ix in ("lending_account_withdraw", "lending_account_repay"):
+        for target in bank_targets(ix):
+            for st in STATES:
+                for fl in (16, 48):
+                    lines.append(cell(ix, st, target, None, 0, 0, fs_paused=False, kind="matrix", acct_flags=fl))
     lines += valuation_cells()
     return lines
 
